@@ -62,6 +62,7 @@ func checkC04(c *Ctx) {
 	// what the helpers of the decoders refuse beyond what the specification lets them (B13, T13)
 	c.lpHelpersAcceptSpecLengths()
 	c.topicNamePredicate()
+	c.binaryFieldsNotValidatedAsText()
 	c.headerByteRefusals()
 	// what a received packet is decoded into: the message of its own type, fresh for every packet (T1)
 	c.typeTables()
